@@ -30,7 +30,7 @@ ALPHABET = ["createA", "createB", "create2A", "delFirst", "delMiddle", "delLast"
 # used by the random histories only (the exhaustive part keeps the 11-letter alphabet)
 EXTRA = ["configureA", "configureDup", "configureEmpty", "createFailing", "createNested"]
 TYPES = ["A", "B"]
-STATES = ["active", "busy"]
+STATES = ["active", "busy", "inactive", "act", "busy2", "idle"]  # queried states: some never occur, some contain the name of a state that does
 
 
 def _mk_model():
